@@ -162,6 +162,8 @@ package sql
 //@   ensures[C17] read-only: db == old(db)
 //@   loop 1 invariant db == old(db) && (isnil(relations) || fresh(relations))
 //@   loop 2 invariant db == old(db) && (isnil(res) || fresh(res))
+//@   ensures[C01] direct-hit-or-every-computed-relation-is-a-next-hop: (err == nil && !(len(res) == 1 && res[0] != nil && res[0].Found)) ==> len(res) == len(computedSubjectSets) && (forall k in 0..len(res) :: res[k] != nil && !res[k].Found && res[k].To != nil && res[k].To.Namespace == start.Namespace && res[k].To.Object == start.Object && res[k].To.Relation == computedSubjectSets[k] && res[k].To.Subject == start.Subject)
+//@   loop 2 invariant[C01] len(res) == $n && (forall k in 0..len(res) :: res[k] != nil && fresh(res[k]) && !res[k].Found && res[k].To != nil && fresh(res[k].To) && res[k].To.Namespace == start.Namespace && res[k].To.Object == start.Object && res[k].To.Relation == computedSubjectSets[k] && res[k].To.Subject == start.Subject)
 
 // ---- write path (C04 builders, C05 transaction context, C06 network binding of raw statements)
 // ASSUMED: popx.Transaction runs the callback with a context that carries the transaction
